@@ -7,9 +7,10 @@ package cluster
 // commands the election code uses (PING GET SET..EX EXPIRE DEL EVAL), and a
 // small interpreter of the Lua subset the election scripts are written in
 // (independent of the extractor's parser and of the Lean evaluator; the three
-// are diffed against each other). Fault injection: the next GET/EVAL can be
-// answered with an error or by dropping the connection, before or after it
-// was executed.
+// are diffed against each other). Fault injection: the next data request can
+// be answered with an error or by dropping the connection, before or after it
+// was executed. Request-level scheduling: the harness can have the (k+1)-th
+// request of one connection held until it says so (armPause).
 
 import (
 	"bufio"
@@ -48,6 +49,37 @@ type vfLeaseStore struct {
 	ln         net.Listener
 	parsed     map[string]*vfLuaChunk
 	parseErr   map[string]error
+
+	// connections are numbered in accept order; lastPingConn is the
+	// connection that most recently sent PING (NewRedisConn pings once, so
+	// right after a dial it identifies the new client's connection)
+	nextConn     int
+	lastPingConn int
+	reqLog       []string // data requests (upper-case command names) since the harness last cleared it
+
+	// request-level scheduling: the harness arms a pause for one connection;
+	// the first pauseAfter data requests on it are served normally, the next
+	// one is HELD (not executed) until the harness releases it. A call that
+	// issues at most pauseAfter requests is not affected at all.
+	pauseConn  int // -1: none
+	pauseAfter int
+	pauseSeen  int
+	pausedCh   chan struct{}
+	releaseCh  chan struct{}
+}
+
+func (st *vfLeaseStore) armPause(conn, after int) {
+	st.mu.Lock()
+	st.pauseConn, st.pauseAfter, st.pauseSeen = conn, after, 0
+	st.pausedCh = make(chan struct{}, 1)
+	st.releaseCh = make(chan struct{})
+	st.mu.Unlock()
+}
+
+func (st *vfLeaseStore) disarmPause() {
+	st.mu.Lock()
+	st.pauseConn = -1
+	st.mu.Unlock()
 }
 
 func vfNewLeaseStore() (*vfLeaseStore, error) {
@@ -55,7 +87,7 @@ func vfNewLeaseStore() (*vfLeaseStore, error) {
 	if err != nil {
 		return nil, err
 	}
-	st := &vfLeaseStore{data: map[string]vfEntry{}, ln: ln, parsed: map[string]*vfLuaChunk{}, parseErr: map[string]error{}}
+	st := &vfLeaseStore{data: map[string]vfEntry{}, ln: ln, parsed: map[string]*vfLuaChunk{}, parseErr: map[string]error{}, pauseConn: -1}
 	go st.acceptLoop()
 	return st, nil
 }
@@ -69,7 +101,11 @@ func (st *vfLeaseStore) acceptLoop() {
 		if err != nil {
 			return
 		}
-		go st.serve(c)
+		st.mu.Lock()
+		id := st.nextConn
+		st.nextConn++
+		st.mu.Unlock()
+		go st.serve(c, id)
 	}
 }
 
@@ -257,7 +293,7 @@ func vfWriteReply(w *bufio.Writer, rp vfReply) error {
 	return w.Flush()
 }
 
-func (st *vfLeaseStore) serve(c net.Conn) {
+func (st *vfLeaseStore) serve(c net.Conn, id int) {
 	defer c.Close()
 	r := bufio.NewReader(c)
 	w := bufio.NewWriter(c)
@@ -270,7 +306,24 @@ func (st *vfLeaseStore) serve(c net.Conn) {
 		mode := vfFailNone
 		if len(args) > 0 {
 			up := strings.ToUpper(args[0])
-			if up == "EVAL" || up == "GET" {
+			if up == "PING" {
+				st.lastPingConn = id
+			} else if up != "AUTH" {
+				if st.pauseConn == id {
+					if st.pauseSeen == st.pauseAfter {
+						pch, rch := st.pausedCh, st.releaseCh
+						st.pauseConn = -1
+						st.mu.Unlock()
+						pch <- struct{}{}
+						<-rch
+						st.mu.Lock()
+					} else {
+						st.pauseSeen++
+					}
+				}
+				st.reqLog = append(st.reqLog, up)
+			}
+			if up != "PING" && up != "AUTH" {
 				mode = st.fail
 				st.fail = vfFailNone
 			}
